@@ -73,6 +73,7 @@ class Universe:
         for en in self.enums_nn.values():
             setattr(self.module, en.__name__, en)
         self.specs = {}  # class name -> [(field name, kind, shape)]
+        self.defaults = {}  # (class name, field name) -> the non-empty default of a dtok / dval field
         self.classes = {}
         self._make(rng, "Leaf", [])
         self._make(rng, "Root", ["Leaf"])
@@ -95,10 +96,15 @@ class Universe:
             kind = rng.choice(PRIM_KINDS + refs * 3)
             # req / opt / list, a list under a wrapper element, a list written as one tokens value
             # … and fields outside __init__ holding a fixed value (xs fixed="…"): a single value or a tokens list
-            shape = rng.choice(["req", "opt", "opt", "list", "list", "wlist", "wlist", "tokens", "fixed", "fixedtok"])
+            # … and fields whose default is not the empty one: a tokens list with a non-empty default_factory
+            # (`dtok`), a single value with a non-None default (`dval`) — the instances hold the default, an
+            # empty / falsy value or something else, and the serializer may run with ignore_default_attributes
+            shape = rng.choice(["req", "opt", "opt", "list", "list", "wlist", "wlist", "tokens", "fixed", "fixedtok", "dtok", "dval"])
             is_cls = kind in refs
-            if shape in ("tokens", "fixedtok") and kind not in TOKEN_KINDS:
-                shape = "wlist" if shape == "tokens" else "fixed"
+            if shape in ("tokens", "fixedtok", "dtok") and kind not in TOKEN_KINDS:
+                shape = "wlist" if shape == "tokens" else ("fixed" if shape == "fixedtok" else "dval")
+            if shape == "dval" and kind in refs:
+                shape = "opt"
             if shape == "fixed" and is_cls:
                 shape = "opt"
             xml = "Element" if (shape in ("list", "wlist") or is_cls or rng.random() < 0.6) else "Attribute"
@@ -106,8 +112,10 @@ class Universe:
             if shape == "wlist":
                 md["wrapper"] = f"W{i}"
                 md["name"] = f"item{i}"
-            if shape in ("tokens", "fixedtok"):
+            if shape in ("tokens", "fixedtok", "dtok"):
                 md["tokens"] = True
+            if shape in ("dtok", "dval") and rng.random() < 0.7:
+                md["type"] = "Attribute"
             if kind.startswith("bytes"):
                 md["format"] = "base16" if kind == "bytes16" else "base64"
             if rng.random() < 0.3 and shape != "wlist":
@@ -118,6 +126,18 @@ class Universe:
                 flds.append((fname, tp, field(metadata=md)))
             elif shape == "opt":
                 flds.append((fname, Optional[tp], field(default=None, metadata=md)))
+            elif shape == "dval":
+                dv = self.value(rng, kind)
+                while _has_nan(dv):
+                    dv = self.value(rng, kind)
+                self.defaults[(name, fname)] = dv
+                flds.append((fname, tp, field(default=dv, metadata=md)))
+            elif shape == "dtok":
+                items = [self.value(rng, kind) for _ in range(rng.choice([1, 2, 3]))]
+                while _has_nan(items):
+                    items = [self.value(rng, kind) for _ in range(rng.choice([1, 2, 3]))]
+                self.defaults[(name, fname)] = items
+                flds.append((fname, List[tp], field(default_factory=lambda items=items: list(items), metadata=md)))
             elif shape == "fixed":
                 flds.append((fname, tp, field(init=False, default=self.value(rng, kind), metadata=md)))
             elif shape == "fixedtok":
@@ -181,6 +201,19 @@ class Universe:
         for fname, kind, shape in self.specs[name]:
             if shape in ("fixed", "fixedtok"):
                 continue                  # outside __init__: the instance holds the fixed value
+            if shape == "dtok":
+                r = rng.random()
+                kw[fname] = [] if r < 0.45 else (list(self.defaults[(name, fname)]) if r < 0.7 else
+                                                [self.value(rng, kind, depth) for _ in range(rng.choice([1, 2]))])
+                if kw[fname] == self.defaults[(name, fname)]:
+                    kw[fname] = list(self.defaults[(name, fname)])   # equal is the default (0.0 == -0.0): hold the default itself
+                continue
+            if shape == "dval":
+                r = rng.random()
+                kw[fname] = self.defaults[(name, fname)] if r < 0.4 else self.value(rng, kind, depth)
+                if kw[fname] == self.defaults[(name, fname)]:
+                    kw[fname] = self.defaults[(name, fname)]         # a value equal to the default (-0.0 == 0.0) may be left out
+                continue
             if shape == "req":
                 kw[fname] = self.value(rng, kind, depth)
             elif shape == "opt":
@@ -266,7 +299,9 @@ def run(args):
         with warnings.catch_warnings():
             warnings.simplefilter("ignore")
             try:
-                data = DictEncoder(context=XmlContext(), dict_factory=fac).encode(obj)
+                # a serializer option away from its default: attributes that hold their default are left out
+                ida = (args["seed"] // 4) % 2 == 1
+                data = DictEncoder(context=XmlContext(), config=SerializerConfig(ignore_default_attributes=ida), dict_factory=fac).encode(obj)
             except Exception as e:  # noqa: BLE001
                 return {"dumps": f"encode raised {type(e).__name__}: {str(e)[:120]}", "dict": "-", "json": "-"}
             try:
@@ -282,7 +317,7 @@ def run(args):
             try:
                 # the indentation of the text is a serializer option the parser must not care about
                 indent = [None, 2, 0, 1][args["seed"] % 4]
-                text = JsonSerializer(context=XmlContext(), config=SerializerConfig(indent=indent), dict_factory=fac).render(obj)
+                text = JsonSerializer(context=XmlContext(), config=SerializerConfig(indent=indent, ignore_default_attributes=ida), dict_factory=fac).render(obj)
                 back = JsonParser(context=XmlContext()).from_string(text, clazz)
                 out["json"] = "identity" if same(back, obj) else f"changed: {back!r:.400} != {obj!r:.400}"
             except Exception as e:  # noqa: BLE001
@@ -307,6 +342,10 @@ def run_shared(args):
             warnings.simplefilter("ignore")
             for i, (u, obj, clazz) in enumerate(built):
                 enc, dec, ser, par = tools[args["factories"][i % len(args["factories"])]]
+                # the same serializer options as the step has on its own (see `run`)
+                seed = args["steps"][i][0]
+                enc.config = SerializerConfig(ignore_default_attributes=(seed // 4) % 2 == 1)
+                ser.config = SerializerConfig(indent=[None, 2, 0, 1][seed % 4], ignore_default_attributes=(seed // 4) % 2 == 1)
                 o = {}
                 try:
                     data = enc.encode(obj)
